@@ -38,28 +38,47 @@ from vlib.runner import Result, h64
 
 PROPERTY = 'C10'
 LEVEL = 'exploration'
-RULE = ('Contexts: the configuration space of C01 (every family x 8 modes x overflow modes x NaN/inf options x substitutes; '
-        'bounds in counters) -- quick samples it per family with the run seed, thorough takes all. Per context: quantize '
-        'programs as source text (assign / returned round / cast; constructor text and captured constant; annotated or not), '
-        'each of unfold_special, unfold_neg_zero, unfold_overflow(early_check F/T), float_to_fixed, rescale_fixed, elim_round, '
-        'insert_round alone (where = None / 0 / cursor), and every prefix of monomorphize(FP32|FP64) -> unfold_special -> '
-        '[unfold_neg_zero ->] unfold_overflow -> float_to_fixed -> rescale_fixed -> simplify (+ elim_round / insert_round tail). '
-        'Operands: each threshold a lowering branches on (smallest subnormal and its tie with zero, 2^emin, maxval, infval, the '
-        'overflow tie, the clamp end 2^(emax+1)) with +-ulp/8, +-ulp/2, +-ulp and a non-dyadic perturbation, a seeded sample of the '
-        'C01 breakpoint operands, both zeros, both infinities, NaN. Non-trivial = rewritten program evaluated on an operand within '
-        'one ulp of such a threshold or on a zero/special; distinct by (context, program form, rewrite chain, operand, carrier), '
-        'never repeated by the enumeration. Arith layer: one-operation programs with argument formats pinned to small formats and '
-        'the target one parameter step away; all members as operands; non-trivial = the rewrite acted (identity claimed).')
+RULE = ('Contexts: the configuration space of C01 quick (every float and fixed family + Exp + REAL x 8 modes x overflow modes x '
+        'NaN/inf/-0 options x substitute values; 18960 contexts) -- quick takes a per-family sample drawn with the run seed '
+        '(~2700 contexts, so seeds walk through the space), thorough all of it plus 4000 of the wider C01 thorough space. Per context: '
+        'quantize programs as source text through the real decorator (assign / returned round / cast / returned cast; context as '
+        'constructor text and as captured constant; annotated or not); each of unfold_special, unfold_neg_zero, '
+        'unfold_overflow(early_check F/T), float_to_fixed, rescale_fixed, elim_round, insert_round alone with where = None / 0 / '
+        'cursor (listing consistency: a refused site is not in sites(), a listed one is rewritten); every prefix of '
+        'monomorphize(FP32|FP64) -> [unfold_special ->] [unfold_neg_zero ->] unfold_overflow(early F/T) -> float_to_fixed -> '
+        'rescale_fixed -> simplify (+ elim_round | insert_round(FP64) tail), with where=None or one cursor forwarded across the steps. '
+        'Operands: every threshold a lowering branches on (smallest subnormal and its tie with zero, 2^emin, maxval, infval, the '
+        'overflow tie, the clamp end 2^(emax+1), one wrap period) with 0, +-ulp/8, +-ulp/2, +-ulp and a non-dyadic perturbation, in both '
+        'signs; a seeded sample of the C01 breakpoint operands; the extremes of the pinned argument format; both zeros, both '
+        'infinities, NaN; carriers Float / Fraction / float. Non-trivial = a rewritten program evaluated on an operand within one '
+        'ulp of such a threshold or on a zero / special; distinct by (context, program form, spelling, rewrite sequence, where, '
+        'operand), which the enumeration never repeats (contexts are de-duplicated after placeholder resolution). '
+        'Arith layer: one-operation programs (round, cast, neg, abs, add, sub, mul, round(mul), mul+add) with argument formats '
+        'pinned to small formats and the target either the exact result format +-1 step, the argument format +-1 step '
+        '(precision, emin, bound, NaN / inf / -0 flag, neighbouring family) or unrelated; elim_round / insert_round; operands = all '
+        'members (smallest and largest magnitudes always) incl. specials; every evaluation there follows a claimed identity.')
 ASSUMPTIONS = [
     'Values only: inexact/overflow flags of results are not compared.',
-    'An operand for which the original program raises must raise the same exception type after the rewrite.',
-    'A rewrite that leaves the program text unchanged (where=None and nothing to do) is a refusal; it is counted, not evaluated.',
-    'The absolute oracle vlib.oracle_round is used for attribution only (both sides wrong the same way => class c01:*, not a C10 failure).',
-    'Pinned chains only receive operands that are members of the pinned argument format (FP32 / FP64), as monomorphize promises.',
+    'An operand for which the original program raises (ValueError for an unrepresentable special or an inexact cast, OverflowError under '
+    'OV.ASSERT) must raise the same exception type after the rewrite.',
+    'A rewrite that leaves the program text unchanged under where=None is a refusal: counted, not evaluated. TransformDeclined and '
+    'TransformReferenceError (where=0 with no site) are refusals; any other exception out of a strategy is a failure bucket.',
+    'The absolute oracle vlib.oracle_round is used for attribution only: both sides wrong the same way => class c01:*, not a C10 failure; '
+    'a differential mismatch is a failure whatever the oracle says (the attribution is recorded in `got`).',
+    'Pinned chains only receive operands that are members of the pinned argument format (FP32 / FP64), as monomorphize promises; '
+    'arith programs only receive members of their argument formats.',
+    'Excluded by construction (known finding F15 / C14, counted under skipped): exact negation / multiplication producing -0 from +0 '
+    'when no argument format has a -0 -- the abstract operators do not derive it, so elim_round / insert_round claim an identity for a '
+    'target without -0.',
+    'Stochastic contexts (num_randbits > 0) are not generated: results are random, so the differential oracle does not apply.',
 ]
 EXHAUSTIVE = {'quick': False, 'thorough': False}
-FLOORS = {'near:emin': 0.02, 'near:maxval': 0.02, 'near:infval': 0.02, 'near:zero': 0.02, 'special': 0.02, 'zero': 0.01,
-          'rewritten': 0.3, 'chain:complete': 20, 'arith:acted': 50, 'arith:declined': 50}
+FLOORS = {'near:emin': 0.05, 'near:maxval': 0.1, 'near:infval': 0.1, 'near:ovthr': 0.1, 'near:clamptop': 0.05, 'near:halfsub': 0.08,
+          'near:zero': 0.05, 'special': 0.02, 'zero': 0.015, 'nondyadic': 0.02, 'rewritten': 0.5, 'cast-rewritten': 100,
+          'chain:complete': 500, 'chain:forwarded-cursor': 100, 'arith:acted': 100, 'arith:declined': 100, 'arith:special-operand': 200,
+          'applied:unfold_special': 1000, 'applied:unfold_neg_zero': 300, 'applied:unfold_overflow': 500,
+          'applied:unfold_overflow(early_check)': 500, 'applied:float_to_fixed': 500, 'applied:rescale_fixed': 500,
+          'applied:insert_round': 100, 'applied:simplify': 500}
 
 TRANSFORM_TIMEOUT = 30
 
@@ -109,19 +128,19 @@ class Inconsistent(Exception):
         self.detail = detail
 
 
-def apply_step(f, step, where='none', ir_ctx=None):
+def apply_step(f, step, where='none', ir_ctx=None, cursor=None):
     """Returns the rewritten Function.  Raises Refused (allowed), Inconsistent (a failure), _Timeout,
     or whatever the strategy raised unexpectedly."""
     old = signal.signal(signal.SIGALRM, _alarm)
     signal.alarm(TRANSFORM_TIMEOUT)
     try:
-        return _apply_step(f, step, where, ir_ctx)
+        return _apply_step(f, step, where, ir_ctx, cursor)
     finally:
         signal.alarm(0)
         signal.signal(signal.SIGALRM, old)
 
 
-def _apply_step(f, step, where, ir_ctx):
+def _apply_step(f, step, where, ir_ctx, cursor=None):
     if step.startswith('mono:'):
         name = step[5:]
         n = len(f.args)
@@ -140,6 +159,15 @@ def _apply_step(f, step, where, ir_ctx):
         strategy, kw = SITED[step]
         skw = {}
         call = lambda **w: strategy(f, **kw, **w)
+    if where == 'fwd':
+        # one cursor of the pinned program aims the whole sequence; the strategies forward it across each step
+        try:
+            g = call(where=cursor)
+        except (TransformDeclined, TransformReferenceError) as e:
+            raise Refused(str(e)[:120])
+        if g.format() == f.format():
+            raise Inconsistent('cursor-accepted-but-nothing-rewritten')
+        return g
     listed = st.sites(strategy, f, **skw)
     early = bool(kw.get('early_check'))
     if where == 'none':
@@ -204,26 +232,50 @@ def permitted(exp, o):
 # ---------------------------------------------------------------------------
 # bucket = rewrite + boundary + kind of difference
 
-_BOUNDARY_ORDER = [('special', None), ('zero', 'zero'), ('near:halfsub', 'tie-with-zero'), ('near:minsub', 'smallest-subnormal'),
-                   ('near:zero', 'below-smallest-subnormal'), ('near:emin', 'subnormal-boundary'),
-                   ('near:ovthr', 'overflow-threshold'), ('near:maxval', 'overflow-threshold'), ('near:infval', 'overflow-threshold'),
-                   ('near:clamptop', 'position-clamp-top'), ('near:wrap', 'wrap-range'), ('near:binade', 'binade-boundary')]
+_BOUNDARY_ORDER = [('special', None), ('zero', 'zero'),
+                   ('near:ovthr', 'overflow'), ('near:maxval', 'overflow'), ('near:infval', 'overflow'),
+                   ('near:clamptop', 'overflow'), ('near:wrap', 'overflow'),
+                   ('near:halfsub', 'underflow-to-zero'), ('near:minsub', 'underflow-to-zero'),
+                   ('near:zero', 'underflow-to-zero'), ('near:emin', 'subnormal-boundary'), ('near:binade', 'binade-boundary')]
 
 
 def boundary_label(m, d, tags):
+    """The threshold an operand sits at, coarse enough that one root cause gives one label."""
     if d == NAN:
         return 'nan'
     if d in (PINF, NINF):
         return 'inf'
+    a = abs(d) if isinstance(d, Fraction) else None
+    if a is not None and m.pos_max is not None and a > max(m.pos_max, -(m.neg_max or 0)):
+        return f'overflow:{m.overflow}'
     for t, name in _BOUNDARY_ORDER:
         if t in tags:
-            return name
-    a = abs(d)
-    if m.pos_max is not None and m.pos_max != 0 and a > m.pos_max:
-        return 'beyond-range'
+            return name if name != 'overflow' else f'overflow:{m.overflow}'
     if m.p is not None and m.nmin is not None and a < pow2(m.nmin + m.p):
         return 'subnormal-range'
     return 'interior'
+
+
+def identity_why(b_m, o0, o1):
+    """Which clause of `round is the identity` a wrongly removed / inserted rounding violates."""
+    if o0[0] == 'v' and o1[0] == 'v':
+        a, b = o0[1], o1[1]
+        if {a, b} == {PZERO, NZERO}:
+            return 'sign-of-zero'
+        if a == NAN or b == NAN:
+            return 'nan'
+        if a in (PINF, NINF) or b in (PINF, NINF):
+            return 'inf'
+        if isinstance(a, Fraction) and isinstance(b, Fraction):
+            big = max(abs(a), abs(b))
+            small = min(abs(a), abs(b))
+            if b_m.pos_max is not None and big > max(b_m.pos_max, -(b_m.neg_max or 0)):
+                return 'beyond-bound'
+            if b_m.nmin is not None and b_m.p is not None and small < pow2(b_m.nmin + b_m.p):
+                return 'below-emin'
+            return 'precision' if b_m.p is not None else 'digit-position'
+        return 'value'
+    return diff_kind(o0, o1)
 
 
 def diff_kind(o0, o1):
@@ -231,8 +283,6 @@ def diff_kind(o0, o1):
         a, b = o0[1], o1[1]
         if {a, b} == {PZERO, NZERO}:
             return 'sign-of-zero'
-        if isinstance(a, Fraction) and isinstance(b, Fraction):
-            return 'sign' if a == -b else 'value'
         return 'value'
     if o0[0] == 'v':
         return f'raises-{o1[1]}'
@@ -252,20 +302,29 @@ QUOTA = {'mp': 120, 'mps': 260, 'mpb': 620, 'ieee': 192, 'efloat': 620, 'mpfixed
          'smfixed': 200, 'exp': 24, 'real': 1}
 
 
-def raw_space(tier):
-    """[(kind, args, variant kwargs, rm)] before placeholder resolution."""
+def raw_space(width):
+    """[(kind, args, variant kwargs, rm)] before placeholder resolution; `width` is a C01 tier name."""
     out = []
-    for kind, args, variants in c01.format_space('quick'):
+    for kind, args, variants in c01.format_space(width):
         for kw0 in variants:
             for rm in (MODES if kind != 'real' else ('RNE',)):
                 out.append((kind, args, kw0, rm))
     return out
 
 
+THOROUGH_EXTRA = 4000
+
+
 def select_space(tier, seed):
-    raw = raw_space(tier)
+    """quick: a seeded per-family sample (QUOTA) of the C01 quick space (18960 contexts, so seeds 1..N together
+    walk through it); thorough: all of it plus a seeded sample of the wider C01 thorough space."""
+    raw = raw_space('quick')
     if tier == 'thorough':
-        return raw
+        have = {repr(r) for r in raw}
+        wide = [r for r in raw_space('thorough') if repr(r) not in have]
+        rng = random.Random(h64(seed, 'C10', 'space', 'wide'))
+        rng.shuffle(wide)
+        return raw + wide[:THOROUGH_EXTRA]
     by = {}
     for r in raw:
         by.setdefault(r[0], []).append(r)
@@ -282,11 +341,18 @@ CHUNK = 14
 
 
 def shards(tier, seed):
-    sp = select_space(tier, seed)
+    seen = set()
+    sp = []
+    for raw in select_space(tier, seed):
+        spec = resolve(raw)
+        key = repr(G.enc_spec(spec)) if spec is not None else repr(raw)
+        if key not in seen:          # two variants may resolve to one context: keep cases distinct by construction
+            seen.add(key)
+            sp.append(raw)
     rng = random.Random(h64(seed, 'C10', 'order'))
     rng.shuffle(sp)           # mixes cheap and expensive families across shards
     out = [('lower', tier, seed, i, sp[i:i + CHUNK]) for i in range(0, len(sp), CHUNK)]
-    n_arith = 48 if tier == 'quick' else 400
+    n_arith = 96 if tier == 'quick' else 600
     out += [('arith', tier, seed, i) for i in range(n_arith)]
     return out
 
@@ -321,11 +387,15 @@ class Program:
         self.fn = self.mod.q
         self.cache = {}
 
-    def orig(self, d, car):
+    def orig(self, d, car, m):
+        """(observation, permitted by the absolute oracle?, oracle outcome) of the unrewritten program."""
         k = (d, car)
-        if k not in self.cache:
-            self.cache[k] = observe(self.fn, G.carrier(d, car))
-        return self.cache[k]
+        r = self.cache.get(k)
+        if r is None:
+            o = observe(self.fn, G.carrier(d, car))
+            ex = expect(m, d, exact=self.form in ('cast', 'castret'))
+            r = self.cache[k] = (o, permitted(ex, o), ex)
+        return r
 
     def close(self):
         unload(self.mod)
@@ -343,58 +413,79 @@ def ir_target(name, ctx):
     return {'C': ctx, 'FP64': fp.FP64, 'FP32': fp.FP32}[name]
 
 
-def check_rewritten(res, prog, m, g, steps, where, operands, bnds, ir=None, car_of=None, masked=None):
+class OperandInfo:
+    """Per-context cache: tags / non-triviality / boundary label of each operand."""
+
+    def __init__(self, m):
+        self.m = m
+        self.bnds = G.boundaries(m)
+        self.cache = {}
+
+    def get(self, d):
+        r = self.cache.get(d)
+        if r is None:
+            tags = G.tags_of(self.m, d, self.bnds)
+            nt = any(t.startswith('near:') or t in ('special', 'zero') for t in tags)
+            r = self.cache[d] = (tags, nt, boundary_label(self.m, d, tags))
+        return r
+
+
+def root_cause(rw, last, prog, m, label, o0, o1):
+    if o1[0] == 'x' and o1[1] == 'ValueError' and 'non-dyadic' in o1[2]:
+        return f'{rw}/nondyadic-operand/raises-ValueError'
+    if last in ('er', 'ir'):
+        return f'{rw}/not-identity/{identity_why(m, o0, o1)}'
+    return f'{rw}/{label}/{diff_kind(o0, o1)}'
+
+
+def check_rewritten(res, prog, m, g, steps, where, operands, info, ir=None, car_of=None, masked=None):
     """Differential + attribution for one rewritten program over the operand list."""
     last = steps[-1].split(':')[0]
-    rw = LONG[last] if len(steps) == 1 else 'chain:' + LONG[last]
-    exact = prog.form in ('cast', 'castret')
+    rw = LONG[last]            # the step that introduced the difference: earlier prefixes were checked (and masked) before
+    n = nnt = 0
+    hist = {}
     for d in operands:
         car = car_of(d) if car_of else 'Float'
         if masked is not None and (d, car) in masked:
             res.skip('masked-by-earlier-prefix-failure')
             continue
-        o0 = prog.orig(d, car)
+        o0, ok0, ex = prog.orig(d, car, m)
         o1 = observe(g, G.carrier(d, car))
-        res.case()
-        res.cls('rewritten')
-        tags = G.tags_of(m, d, bnds)
+        n += 1
+        tags, nt, label = info.get(d)
         for t in tags:
-            res.cls(t)
-        res.cls('rw:' + rw)
-        nt = any(t.startswith('near:') or t in ('special', 'zero') for t in tags)
-        case = None
+            hist[t] = hist.get(t, 0) + 1
         if nt:
-            res.nontrivial()
-            if res.evaluations % 4099 == 1:
-                case = case_of(prog, steps, where, d, car, ir)
-                res.sample(case, nt=True)
-        elif res.evaluations % 4099 == 2:
-            res.sample(case_of(prog, steps, where, d, car, ir))
-        same = o0[:2] == o1[:2]
+            nnt += 1
+        if (res.evaluations + n) % 4099 == 1:
+            res.sample(case_of(prog, steps, where, d, car, ir), nt=nt)
         if o0[0] == 'x':
-            res.cls('orig-raises')
-        if same:
-            if prog.spec[0] != 'exp' or True:
-                ex = expect(m, d, exact=exact)
-                if not permitted(ex, o0):
-                    res.cls('c01:both-sides-disagree-with-oracle')
-                    res.count(f'c01:{m.kind}/{ex.why}')
+            hist['orig-raises'] = hist.get('orig-raises', 0) + 1
+        if o0[:2] == o1[:2]:
+            if not ok0:
+                res.cls('c01:both-sides-disagree-with-oracle')
+                res.count(f'c01:{m.kind}/{ex.why}')
             continue
-        ex = expect(m, d, exact=exact)
-        ok0, ok1 = permitted(ex, o0), permitted(ex, o1)
+        ok1 = permitted(ex, o1)
         side = 'lowered-wrong' if ok0 and not ok1 else ('original-wrong' if ok1 and not ok0 else ('both-permitted' if ok0 else 'both-wrong'))
-        bucket = f'{rw}/{family(prog.spec[0])}/{boundary_label(m, d, tags)}/{diff_kind(o0, o1)}'
         if masked is not None:
             masked.add((d, car))
-        res.fail(bucket, case_of(prog, steps, where, d, car, ir), expected=dict(shown(o0), oracle=sorted(show(v) for v in ex.values) + sorted(ex.raises)),
+        res.fail(root_cause(rw, last, prog, m, label, o0, o1), case_of(prog, steps, where, d, car, ir),
+                 expected=dict(shown(o0), oracle=sorted(show(v) for v in ex.values) + sorted(ex.raises)),
                  got=dict(shown(o1), attribution=side))
+    res.case(n)
+    res.cls('rewritten', n)
+    res.cls(('rw:' if len(steps) == 1 else 'rw:chain:') + rw, n)
+    res.nt_count += nnt
+    for t, c in hist.items():
+        res.cls(t, c)
 
 
-def transform(res, prog, f, step, where, steps_so_far, ir_ctx=None, ir=None):
+def transform(res, prog, f, step, where, steps_so_far, ir_ctx=None, ir=None, cursor=None):
     """One step with the bookkeeping: returns g or None."""
     name = step.split(':')[0]
     try:
-        g = apply_step(f, step, where, ir_ctx)
+        g = apply_step(f, step, where, ir_ctx, cursor)
     except Refused as r:
         res.cls('refused:' + LONG[name])
         res.count('refusals')
@@ -413,7 +504,8 @@ def transform(res, prog, f, step, where, steps_so_far, ir_ctx=None, ir=None):
         return None
     except Exception as e:    # a crash is not a refusal
         res.case()
-        res.fail(f'{LONG[name]}/transform-crash/{type(e).__name__}', case_of(prog, steps_so_far + [step], where, PZERO, 'Float', ir),
+        kind = 'format-infer-crash' if _in_format_infer(e) else 'transform-crash'
+        res.fail(f'{LONG[name]}/{kind}/{type(e).__name__}', case_of(prog, steps_so_far + [step], where, PZERO, 'Float', ir),
                  expected='a rewritten program or TransformDeclined', got=f'{type(e).__name__}: {str(e)[:300]}')
         return None
     res.cls('applied:' + LONG[name])
@@ -432,11 +524,12 @@ def run_context(res: Result, spec, tier, seed):
     key = G.enc_spec(spec)
     rng = random.Random(h64(seed, 'C10', 'ctx', key))
     text, _ = G.ctor_text(spec)
-    bnds = G.boundaries(m)
+    info = OperandInfo(m)
+    bnds = info.bnds
     ops_all = G.operands_for(m, rng, fill=(60 if tier == 'thorough' else 20))
     ops_dy = [d for d in ops_all if isinstance(d, str) or F.dyadic(d)]
     # a compact boundary-only list for the secondary program forms
-    ops_small = [d for d in ops_dy if isinstance(d, str) or any(t.startswith('near:') for t in G.tags_of(m, d, bnds))]
+    ops_small = [d for d in ops_dy if isinstance(d, str) or info.get(d)[1]]
     if len(ops_small) > 28:
         keep = [d for d in ops_small if isinstance(d, str)]
         rest = [d for d in ops_small if not isinstance(d, str)]
@@ -478,7 +571,7 @@ def run_context(res: Result, spec, tier, seed):
             g = transform(res, P, P.fn, step, where, [], irc, ir)
             if g is None:
                 continue
-            check_rewritten(res, P, m, g, [step], where, ops_all, bnds, ir, car_of)
+            check_rewritten(res, P, m, g, [step], where, ops_all, info, ir, car_of)
 
         # ---- the other spelling and the other statement form: boundary operands only
         other_form = 'return' if primary_form == 'assign' else 'assign'
@@ -493,7 +586,7 @@ def run_context(res: Result, spec, tier, seed):
                 where = ('none', 'idx', 'cursor')[rng.randrange(3)]
                 g = transform(res, P2, P2.fn, step, where, [])
                 if g is not None:
-                    check_rewritten(res, P2, m, g, [step], where, ops_small, bnds, None, car_of)
+                    check_rewritten(res, P2, m, g, [step], where, ops_small, info, None, car_of)
 
         # ---- cast form: unfold_special / rescale_fixed take casts; operands = members + specials
         if rng.random() < 0.5:
@@ -506,13 +599,19 @@ def run_context(res: Result, spec, tier, seed):
                 g = transform(res, Pc, Pc.fn, step, ('none', 'idx', 'cursor')[rng.randrange(3)], [])
                 if g is not None:
                     res.cls('cast-rewritten')
-                    check_rewritten(res, Pc, m, g, [step], 'none', ops_c, bnds, None, car_of)
+                    check_rewritten(res, Pc, m, g, [step], 'none', ops_c, info, None, car_of)
 
         # ---- the documented chain, every prefix, from a pinned argument format
         pin = ('FP32', 'FP64')[rng.randrange(2)]
         mp = pin_model(pin)
         ops_pin = [d for d in ops_dy if member(mp, d)]
         res.count('pinned-operands-dropped', len(ops_dy) - len(ops_pin))
+        # the argument format's own extremes: largest value, smallest subnormal (as the roadmap's test does)
+        for q in (mp.pos_max, pow2(mp.nmin + 1), pow2(mp.nmin + mp.p)):
+            for d in (q, -q):
+                if d not in ops_pin:
+                    ops_pin.append(d)
+        ops_mono = [d for d in ops_pin if isinstance(d, str)] + ops_pin[:6]
         early = rng.random() < 0.7
         use_unz = family(kind) == 'fixed' or rng.random() < 0.3
         use_us = rng.random() < 0.8          # "(optional)" in the roadmap
@@ -525,9 +624,16 @@ def run_context(res: Result, spec, tier, seed):
         done = []
         masked = set()
         applied = 0
+        fwd = rng.random() < 0.3
+        cursor = None
         for step in chain + [tail]:
             irc = fp.FP64 if step == 'ir' else None
-            g = transform(res, Pch, f, step, 'none', done, irc, 'FP64' if step == 'ir' else None)
+            w = 'fwd' if (fwd and cursor is not None and step in SITED) else 'none'
+            g = transform(res, Pch, f, step, w, done, irc, 'FP64' if step == 'ir' else None, cursor)
+            if step.startswith('mono:') and g is not None and fwd:
+                if Pch.form == 'assign':
+                    cursor = st.StmtCursor(g.ast, st.StmtPath(st.FuncBody(), 0))
+                    res.cls('chain:forwarded-cursor')
             if g is None:
                 if step == 'simp':
                     break
@@ -536,7 +642,8 @@ def run_context(res: Result, spec, tier, seed):
             f = g
             applied += 1
             res.cls('prefix:' + '>'.join(s.split(':')[0] for s in done))
-            check_rewritten(res, Pch, m, g, done, 'none', ops_pin, bnds, 'FP64' if step == 'ir' else None, None, masked)
+            check_rewritten(res, Pch, m, g, done, w, ops_mono if step.startswith('mono:') else ops_pin, info,
+                            'FP64' if step == 'ir' else None, None, masked)
             if step == 'simp':
                 res.cls('chain:complete')
                 res.cls('chain:complete:' + family(kind))
@@ -655,23 +762,66 @@ def perturb(spec, rng):
     return (kind, tuple(a), kw)
 
 
-def _sum_target(A1, A2, op, rng):
-    """A target that is (or is one step from) the exact format of `op` over the argument models."""
-    m1, m2 = A1, A2
-    if m1.p is None or m2.p is None or m1.nmin is None or m2.nmin is None or not m1.pos_max or not m2.pos_max:
+def _magnitude(m):
+    if m.pos_max is None or m.neg_max is None:
         return None
+    return max(m.pos_max, -m.neg_max)
+
+
+def _eff_prec(m):
+    if m.p is not None:
+        return m.p
+    b = _magnitude(m)
+    if b is None or b == 0 or m.nmin is None:
+        return None
+    return floor_log2(b / pow2(m.nmin + 1)) + 1
+
+
+def _sum_target(m1, m2, op, rng):
+    """A target that is the exact format of `op` over the argument models, or one parameter step off it:
+    (precision, finest digit, bound) of x*z are (p1+p2, e1+e2, b1*b2); of x+-z (bits of the bound, min(e1,e2), b1+b2)."""
+    if m1.kind in ('real', 'exp') or m2.kind in ('real', 'exp'):
+        return None
+    e1 = None if m1.nmin is None else m1.nmin + 1
+    e2 = None if m2.nmin is None else m2.nmin + 1
+    b1, b2 = _magnitude(m1), _magnitude(m2)
+    p1, p2 = _eff_prec(m1), _eff_prec(m2)
     if op == 'mul':
-        p = m1.p + m2.p
-        expmin = (m1.nmin + 1) + (m2.nmin + 1)
-        bound = max(m1.pos_max * m2.pos_max, m1.neg_max * m2.neg_max)
+        expmin = None if e1 is None or e2 is None else e1 + e2
+        bound = None if b1 is None or b2 is None else b1 * b2
+        p = None if p1 is None or p2 is None else p1 + p2
     else:
-        expmin = min(m1.nmin, m2.nmin) + 1
-        bound = m1.pos_max + m2.pos_max
-        p = floor_log2(bound) - expmin + 1
+        expmin = None if e1 is None or e2 is None else min(e1, e2)
+        bound = None if b1 is None or b2 is None else b1 + b2
+        p = None
+        if bound and expmin is not None:
+            p = floor_log2(bound / pow2(expmin)) + 1
+        elif p1 is not None and p2 is not None and bound is None and expmin is not None:
+            return ('mpfixed', (expmin - 1 + rng.choice((0, 0, 1)),), {})      # unbounded sum: only the digit position is finite
     dp, de, db = rng.choice(((0, 0, 0), (-1, 0, 0), (0, 1, 0), (0, 0, -1), (1, -1, 1), (0, 0, 0)))
+    fixed_args = m1.p is None and m2.p is None
+    if expmin is not None:
+        expmin += de
+    if fixed_args and expmin is not None:
+        if bound is None:
+            return ('mpfixed', (expmin - 1,), {})
+        u = pow2(expmin)
+        k = bound / u
+        k = k.numerator // k.denominator + db
+        if k < 1:
+            return None
+        kw = {'overflow': 'SATURATE'}
+        if m1.neg_max == 0 and m2.neg_max == 0 and rng.random() < 0.5:
+            kw['neg_maxval'] = -u
+        return ('mpbfixed', (expmin - 1, k * u), kw)
+    if p is None:
+        return None
     p = max(1, p + dp)
-    expmin += de
+    if expmin is None:
+        return ('mp', (p,), {})
     emin = expmin + p - 1
+    if bound is None or bound == 0:
+        return ('mps', (p, emin), {})
     e = floor_log2(bound)
     u = pow2(max(expmin, e - p + 1))
     k = bound / u
@@ -679,13 +829,17 @@ def _sum_target(A1, A2, op, rng):
     if k < 1:
         return None
     mv = k * u
+    if floor_log2(mv) - p + 1 > floor_log2(u) and mv != pow2(floor_log2(mv)):
+        return None                  # bound not representable at this precision
+    if floor_log2(mv) < emin:
+        return ('mps', (p, emin), {})
     return ('mpb', (p, emin, mv), {})
 
 
 def run_arith(res: Result, tier, seed, idx):
     rng = random.Random(h64(seed, 'C10', 'arith', idx))
     pool = small_pool()
-    n_cases = 10 if tier == 'quick' else 14
+    n_cases = 14 if tier == 'quick' else 20
     for _ in range(n_cases):
         op = rng.choice(list(G.ARITH_OPS))
         nargs = G.ARITH_OPS[op][1]
@@ -693,6 +847,9 @@ def run_arith(res: Result, tier, seed, idx):
         a_specs = []
         for _i in range(nargs):
             s = rng.choice(pool)
+            if _i == 1 and rng.random() < 0.6:      # same family group more often than not: comparable formats
+                same = [t for t in pool if family(t[0]) == family(a_specs[0][0])]
+                s = rng.choice(same)
             s = (s[0], s[1], dict(s[2], rm='RNE') if s[0] != 'real' else {})
             a_specs.append(s)
         if a_specs[0][0] == 'real' and rng.random() < 0.8:
@@ -705,12 +862,17 @@ def run_arith(res: Result, tier, seed, idx):
         except (ValueError, TypeError):
             res.skip('arith: constructor rejected')
             continue
-        if nargs == 2 and op in ('mul', 'add', 'sub', 'mulround') and r < 0.5:
+        how = 'pool'
+        if nargs == 2 and op in ('mul', 'add', 'sub', 'mulround') and r < 0.65:
             b_spec = _sum_target(a_models[0], a_models[1], 'mul' if op.startswith('mul') else 'add', rng)
+            how = 'exact-result-format+-1'
         elif r < 0.85:
             b_spec = perturb(a_specs[0], rng)
+            how = 'argument-format+-1'
         if b_spec is None:
             b_spec = rng.choice(pool)
+            how = 'pool'
+        res.cls('arith:target:' + how)
         if b_spec[0] != 'real':
             kwb = dict(b_spec[2])
             kwb['rm'] = rng.choice(MODES)
@@ -718,6 +880,29 @@ def run_arith(res: Result, tier, seed, idx):
         else:
             b_spec = ('real', (), {})
         arith_case(res, op, rewrite, a_specs, b_spec, ('none', 'idx', 'cursor')[rng.randrange(3)], rng, cap=(40 if nargs == 1 else 14))
+
+
+def _exact_neg_zero_from_unsigned_zero(op, t, models):
+    """Exact negation / multiplication yields -0 from +0 although no argument format has a -0 (the abstract
+    operators only carry the operands' flag over): known finding F15."""
+    def negative(d):
+        return isinstance(d, Fraction) and d < 0
+    if any(m.has_neg_zero for m in models):
+        return False
+    if op == 'neg':
+        return t[0] == PZERO
+    if op in ('mul', 'mulround', 'addmul'):
+        return (t[0] == PZERO and negative(t[1])) or (t[1] == PZERO and negative(t[0]))
+    return False
+
+
+def _in_format_infer(e):
+    tb = e.__traceback__
+    while tb is not None:
+        if 'format_infer' in tb.tb_frame.f_code.co_filename:
+            return True
+        tb = tb.tb_next
+    return False
 
 
 def arith_case(res, op, rewrite, a_specs, b_spec, where, rng, cap, only=None):
@@ -756,7 +941,8 @@ def arith_case(res, op, rewrite, a_specs, b_spec, where, rng, cap, only=None):
             return
         except Exception as e:
             res.case()
-            res.fail(f'{name}/transform-crash/{type(e).__name__}', dict(base, operands=[]), expected='a rewritten program or a refusal',
+            kind = 'format-infer-crash' if _in_format_infer(e) else 'transform-crash'
+            res.fail(f'{name}/{kind}/{type(e).__name__}', dict(base, operands=[]), expected='a rewritten program or a refusal',
                      got=f'{type(e).__name__}: {str(e)[:300]}')
             return
         finally:
@@ -777,6 +963,11 @@ def arith_case(res, op, rewrite, a_specs, b_spec, where, rng, cap, only=None):
                     rest = [t for t in tuples if t not in set(sp)]
                     tuples = sp[:80] + rng.sample(rest, min(len(rest), 180))
         for t in tuples:
+            if _exact_neg_zero_from_unsigned_zero(op, t, [m for _, m in a_built]):
+                # known finding F15 (C14): abstract neg/mul do not derive the -0 that exact negation /
+                # multiplication of +0 produces, so `round is the identity` is claimed for a target without -0
+                res.skip('excluded: exact -0 from +0 under neg/mul (F15, format inference)')
+                continue
             objs = tuple(G.carrier(d) for d in t)
             o0 = observe(mod.q, objs)
             o1 = observe(g, objs)
@@ -836,8 +1027,8 @@ def selftest():
         P = Program(spec, ctx, 'assign', spell, True)
         try:
             for d, want in ((Fraction(65519), Fraction(65504)), (Fraction(65520), PINF), (Fraction(1, 3), Fraction(1365, 4096)), (NZERO, NZERO)):
-                o = P.orig(d, 'Float')
-                assert o == ('v', want), (spell, d, o)
+                o = P.orig(d, 'Float', m)
+                assert o[0] == ('v', want) and o[1], (spell, d, o)
                 assert expect(m, d).values == {want}
         finally:
             P.close()
@@ -863,19 +1054,27 @@ def replay(case):
         f = P.fn
         done = []
         steps = case['steps']
+        mode = case.get('where', 'none')
+        cursor = None
         for i, step in enumerate(steps):
             last = i == len(steps) - 1
             irc = ir_target(case.get('ir') or 'FP64', ctx) if step == 'ir' else None
-            g = transform(res, P, f, step, case.get('where', 'none') if last else 'none', done, irc, case.get('ir'))
+            if mode == 'fwd':
+                w = 'fwd' if (cursor is not None and step in SITED) else 'none'
+            else:
+                w = mode if last else 'none'
+            g = transform(res, P, f, step, w, done, irc, case.get('ir'), cursor)
             if g is None:
                 if last:
                     break
                 continue
+            if step.startswith('mono:') and mode == 'fwd':
+                cursor = st.StmtCursor(g.ast, st.StmtPath(st.FuncBody(), 0))
             done = done + [step]
             f = g
             if last:
                 d = G.dec_operand(case['operand'])
-                check_rewritten(res, P, m, g, done, case.get('where', 'none'), [d], G.boundaries(m), case.get('ir'),
+                check_rewritten(res, P, m, g, done, mode, [d], OperandInfo(m), case.get('ir'),
                                 (lambda _d: case.get('carrier', 'Float')))
     finally:
         P.close()
